@@ -86,6 +86,20 @@ def cleanup():
         shutil.rmtree(_BASE[0], ignore_errors=True)
 
 
+def remove_stale_scratch():
+    """Scratch directories of earlier invocations that were killed (time-out) before they
+    could clean up: remove those whose owning process no longer exists."""
+    import glob
+    for d in glob.glob('/dev/shm/verif-c16-*') + glob.glob('/dev/shm/verif-c12-*') + \
+            glob.glob('/dev/shm/verif-mut-*') + glob.glob('/dev/shm/verif-seed-*'):
+        try:
+            pid = int(d.rsplit('-', 1)[1])
+        except ValueError:
+            continue
+        if pid != os.getpid() and not os.path.exists(f'/proc/{pid}'):
+            shutil.rmtree(d, ignore_errors=True)
+
+
 # --------------------------------------------------------------------------
 # pool + golden values (built once in the parent, before forking)
 # --------------------------------------------------------------------------
@@ -93,6 +107,7 @@ def prepare():
     if _P:
         return
     warnings.filterwarnings('ignore')
+    remove_stale_scratch()
     import pharmpy.model as pmodel
     import pharmpy.workflows.contexts.local_directory as ctxmod
     import pharmpy.workflows.model_database.local_directory as dbmod
